@@ -6,6 +6,27 @@ HERE = os.path.dirname(os.path.dirname(os.path.abspath(__file__)))
 
 # property -> (technique, level text, level note, design ref)
 CLAIMS = {
+    "C06": ("must-pass-through / at-most-once path queries over go/cfg; who-may-call over resolved callees; path-sensitive linear-resource dataflow for Recv/Returner; SSA dominating-guard atoms",
+            "structural necessary conditions of exactly-once, in-order RPC delivery, decided exhaustively over every CFG path and call site of today's tree (single dispatcher, one discharge per answer, Returner consumed exactly once, id reuse and id validation guards, handler lock discipline); it is not a proof over message histories",
+            "trusts go/types, go/cfg, go/ssa of x/tools v0.29.0; lock identity per class; dynamic calls are not followed", "DESIGN.md 3 C06"),
+    "C07": ("who-writes-field over SSA stores; SSA dominating-guard atoms on table entries; linear ownership path queries for AddRef results; teardown must-pass-through",
+            "ownership/layering necessary conditions of reference counting (designated writers of every count, nil-tested table entries, Release carries the entry's count, AddRef results disposed on all paths, complete teardown); not the count equation over histories",
+            "trusts x/tools v0.29.0; access-path (not alias) matching of guards", "DESIGN.md 3 C07"),
+    "C08": ("SSA dominance: non-nil / length guards on untrusted ids and table entries, known-nil detection for annotate arguments, nil-able func fields; switch-default and panic census over the call graph; lock-state dataflow with absolute-state propagation",
+            "necessary conditions for surviving a hostile peer (no unchecked index or nil table entry, annotate never gets nil, no call through a possibly-nil func field, non-panicking dispatch defaults, handler errors propagate, enumerated panics, no application code or blocking under Conn.mu); not protocol-correctness of each reply",
+            "trusts x/tools v0.29.0; CHA call graph restricted to the module for interface dispatch", "DESIGN.md 3 C08"),
+    "C09": ("path-sensitive lock-state dataflow over go/cfg with function summaries and absolute-state propagation from entry points; must-pass-through path queries; interprocedural dynamic-type flow over SSA for the stream-broken latch",
+            "exhaustive over all CFG paths of packages capnp, rpc, server: lock balance per function, documented lock contracts at every call path, no application code/blocking/re-lock under Conn.mu, transport operations under the sender lock, shutdown/task-group shape, wake-ups exactly once, latch liveness; not bounded time or goroutine exit under real schedulers",
+            "trusts x/tools v0.29.0; lock identity per class (struct field); literal-nil results drive conditional summaries", "DESIGN.md 3 C09"),
+    "C10": ("lock-state dataflow (balance, guarded-by, held-lock policy); SSA dominating-guard atoms for close(done), WeakClient.AddRef and the call bracket; must-pass-through queries for finish()/Shutdown order",
+            "necessary conditions of exactly-once capability shutdown (serialised counts, conditioned close of done, Shutdown only after <-done from two designated sites, call bracket, reference transfer); not exactly-once under interleavings",
+            "trusts x/tools v0.29.0; lock identity per class; guards matched on access paths", "DESIGN.md 3 C10"),
+    "C11": ("lock-state dataflow (balance, contracts, guarded-by, policy); must-non-nil forward dataflow for lazily created maps; linear Recv dataflow; path queries for the ongoing-call bracket and resolve-once",
+            "necessary conditions of once-only, deadlock-free pipelining in answer.go, exhaustive over CFG paths; not delivery order or exactly-once under interleavings",
+            "trusts x/tools v0.29.0; lock identity per class (two Promise.mu may be held by design)", "DESIGN.md 3 C11"),
+    "C12": ("lock-state dataflow incl. the logical lock Server.starting; path queries for admission-after-drain-test and slot release; SSA guards for close(drain)/close(full); linear Recv dataflow",
+            "necessary conditions of ordered, capped, exactly-once local delivery in package server, exhaustive over CFG paths; not ordering or the cap as numeric invariants over timings",
+            "trusts x/tools v0.29.0; lock identity per class", "DESIGN.md 3 C12"),
 }
 PENDING_REASON = "no static check registered yet in this round; see DESIGN.md section 3 for the clause that is planned"
 NOT_APPLICABLE = {
